@@ -190,4 +190,185 @@ theorem index?_refs (addrs : List Nat) (j : Nat) (i : Int) (a : Nat) (ha : addrs
   rw [hi]
   simp [List.getElem?_map, ha]
 
+/-! ### the whole object: `Rep` -/
+
+section RepSec
+variable {α : Type} [DecidableEq α]
+
+/-- a slot of `item_list`: the `_MISSING` tombstone or the item -/
+def ofItem : Option α → Val α Unit
+  | none => .sentinel
+  | some x => .key x
+
+/-- `item_index_map` with Python ints as values -/
+def castIdx (m : IMap α) : PyRt.Dict α Int := m.map (fun p => (p.1, (p.2 : Int)))
+
+/-- the generated object state `st` stands for the model state `s` -/
+structure Rep (st : IndexedSet.St α) (s : ISet α) : Prop where
+  items : st.item_list = s.items.map ofItem
+  idx : st.item_index_map = castIdx s.idx
+  dead : RepDead st.heap st.dead_indices s.dead
+
+theorem find_castIdx (m : IMap α) (x : α) :
+    PyRt.Dict.find (castIdx m) x = (IMap.lookup m x).map (fun n => (n : Int)) := by
+  induction m with
+  | nil => rfl
+  | cons p m ih =>
+    obtain ⟨k, v⟩ := p
+    simp only [castIdx, List.map_cons, PyRt.Dict.find, IMap.lookup] at *
+    split <;> simp_all
+
+theorem contains_castIdx (m : IMap α) (x : α) : PyRt.Dict.contains (castIdx m) x = (IMap.lookup m x).isSome := by
+  simp only [PyRt.Dict.contains, find_castIdx]
+  cases IMap.lookup m x <;> rfl
+
+theorem set_castIdx (m : IMap α) (x : α) (n : Nat) :
+    PyRt.Dict.set (castIdx m) x (n : Int) = castIdx (IMap.set m x n) := by
+  induction m with
+  | nil => rfl
+  | cons p m ih =>
+    obtain ⟨k, v⟩ := p
+    simp only [castIdx, List.map_cons, PyRt.Dict.set, IMap.set] at *
+    split <;> simp_all
+
+theorem length_castIdx (m : IMap α) : (castIdx m).length = m.length := by simp [castIdx]
+
+theorem erase_castIdx (m : IMap α) (x : α) (h : (IMap.keys m).Nodup) :
+    PyRt.Dict.erase (castIdx m) x = castIdx (IMap.erase m x) := by
+  induction m with
+  | nil => rfl
+  | cons p m ih =>
+    obtain ⟨k, v⟩ := p
+    simp only [IMap.keys, List.map_cons, List.nodup_cons] at h
+    have ih' := ih (by simpa [IMap.keys] using h.2)
+    simp only [castIdx, List.map_cons, PyRt.Dict.erase, IMap.erase, List.filter_cons] at *
+    by_cases hk : k = x
+    · subst hk
+      simp only [decide_true, Bool.not_true, Bool.false_eq_true, if_false, if_true]
+      apply List.filter_eq_self.2
+      intro q hq
+      simp only [List.mem_map] at hq
+      obtain ⟨⟨k2, v2⟩, hm, rfl⟩ := hq
+      have : k2 ≠ k := by
+        intro hkk; subst hkk
+        exact h.1 (List.mem_map.2 ⟨(k2, v2), hm, rfl⟩)
+      simp [this]
+    · simp [hk, ih']
+
+
+/-- the loop of `_compact`, whatever its body looks like, as long as one iteration writes `items[i] = item` and
+    `index_map[item] = i`: `W` = the slots written so far, `M` = stale slots already read, `rest` = the slots not yet read -/
+theorem compact_loop {σ ρ φ : Type} (proj : σ → IndexedSet.St α) (frame : σ → φ) (bind : Int → Val α Unit → σ → σ)
+    (body : Stmt σ ρ) (keep : Val α Unit → Bool) (hk1 : keep .sentinel = false) (hk2 : ∀ x, keep (.key x) = true)
+    (hbody : ∀ (t : σ) (i : Int) (x : α), 0 ≤ i → i < (proj t).item_list.length →
+      ∃ t', body (bind i (.key x) t) = (.next, t') ∧
+        proj t' = ⟨(proj t).heap, PyRt.Dict.set (proj t).item_index_map x i, (proj t).item_list.set i.toNat (.key x),
+                   (proj t).dead_indices, (proj t).compactions, (proj t).c_max_size⟩ ∧ frame t' = frame t) :
+    ∀ (rest : List (Option α)) (W M : List (Val α Unit)) (m : IMap α) (fuel : Nat) (t : σ),
+      rest.length < fuel →
+      (proj t).item_list = W ++ M ++ rest.map ofItem → (proj t).item_index_map = castIdx m →
+      ∃ t', forLazy (fun s => (proj s).item_list) keep bind body fuel
+            (W.length + M.length) (W.length : Int) t = (.next, t') ∧
+        proj t' = ⟨(proj t).heap, castIdx (assignIdx m (live rest) W.length),
+                   W ++ (live rest).map Val.key ++ (M ++ rest.map ofItem).drop (live rest).length,
+                   (proj t).dead_indices, (proj t).compactions, (proj t).c_max_size⟩ ∧ frame t' = frame t := by
+  intro rest
+  induction rest with
+  | nil =>
+    intro W M m fuel t hf hl hi
+    obtain ⟨n, rfl⟩ : ∃ n, fuel = n + 1 := ⟨fuel - 1, by simp at hf; omega⟩
+    refine ⟨t, ?_, ?_, rfl⟩
+    · simp [forLazy, hl]
+    · have : (proj t).item_list = W ++ M := by simpa using hl
+      simp only [live, assignIdx, List.filterMap_nil, List.map_nil, List.append_nil, List.length_nil, List.drop_zero,
+        ← this, ← hi]
+  | cons o rest ih =>
+    intro W M m fuel t hf hl hi
+    obtain ⟨n, rfl⟩ : ∃ n, fuel = n + 1 := ⟨fuel - 1, by simp at hf; omega⟩
+    have hget : (proj t).item_list[W.length + M.length]? = some (ofItem o) := by
+      rw [hl, List.append_assoc, List.getElem?_append_right (by omega),
+        List.getElem?_append_right (by omega)]
+      simp
+    cases o with
+    | none =>
+      obtain ⟨t', h1, h2, h3⟩ := ih W (M ++ [Val.sentinel]) m n t (by simp at hf; omega)
+        (by rw [hl]; simp [ofItem]) hi
+      refine ⟨t', ?_, ?_, h3⟩
+      · simp only [forLazy, hget, ofItem, hk1]
+        simpa [Nat.add_assoc] using h1
+      · rw [h2]; simp [live, ofItem]
+    | some x =>
+      have hlt : W.length + M.length < (proj t).item_list.length := by rw [hl]; simp
+      obtain ⟨t1, hb1, hb2, hb3⟩ := hbody t (W.length : Int) x (by omega) (by omega)
+      -- the list after `items[i] = item`
+      have hset : (proj t).item_list.set W.length (Val.key x) =
+          (W ++ [Val.key x]) ++ (M ++ [Val.key x]).tail ++ rest.map ofItem := by
+        rw [hl]
+        cases M with
+        | nil => simp [ofItem, List.set_append]
+        | cons m0 M2 => simp [ofItem, List.set_append]
+      have hl1 : (proj t1).item_list = (W ++ [Val.key x]) ++ (M ++ [Val.key x]).tail ++ rest.map ofItem := by
+        rw [hb2]; simpa using hset
+      have hi1 : (proj t1).item_index_map = castIdx (IMap.set m x W.length) := by
+        rw [hb2]; simp only; rw [hi, set_castIdx]
+      obtain ⟨t', h1, h2, h3⟩ := ih (W ++ [Val.key x]) ((M ++ [Val.key x]).tail) (IMap.set m x W.length) n t1
+        (by simp at hf; omega) hl1 hi1
+      refine ⟨t', ?_, ?_, h3.trans hb3⟩
+      · simp only [forLazy, hget, ofItem, hk2, if_true, hb1]
+        have e1 : (W ++ [Val.key x]).length + (M ++ [Val.key x]).tail.length = W.length + M.length + 1 := by
+          simp; omega
+        have e2 : (((W ++ [Val.key x]).length : Nat) : Int) = (W.length : Int) + 1 := by simp
+        rw [e1, e2] at h1
+        exact h1
+      · rw [h2, hb2]
+        simp only [live, List.filterMap_cons, id, assignIdx, List.length_append, List.length_cons, List.length_nil]
+        cases M with
+        | nil => simp [ofItem]
+        | cons m0 M2 => simp [ofItem]
+@[simp] theorem ofItem_some (x : α) : ofItem (some x) = Val.key x := rfl
+@[simp] theorem ofItem_none : ofItem (none : Option α) = Val.sentinel := rfl
+
+theorem delSlice_all {β : Type} (l : List β) : delSlice l none none = [] := by
+  unfold delSlice
+  cases l <;> simp
+
+theorem delSlice_neg_tail {β : Type} (l : List β) (n : Nat) (hn : n ≤ l.length) :
+    delSlice l (some (-(n : Int))) none = if n = 0 then [] else l.take (l.length - n) := by
+  unfold delSlice PyRt.clampBound
+  by_cases h0 : n = 0
+  · subst h0; cases l <;> simp
+  · have h1 : (-(n : Int)) < 0 := by omega
+    have h2 : ((-(n : Int)) + (l.length : Int)).toNat = l.length - n := by omega
+    simp only [h1, if_true, h2, h0, if_false]
+    rw [if_pos (by omega)]
+    simp
+
+theorem repDead_nil_iff {h : Heap α Unit} {refs : List (Val α Unit)} {dead : List (Nat × Nat)} (hr : RepDead h refs dead) :
+    refs.isEmpty = dead.isEmpty := by
+  obtain ⟨addrs, rfl, _, hc⟩ := hr
+  have := congrArg List.length hc
+  simp at this
+  cases addrs <;> cases dead <;> simp_all
+
+theorem repDead_nil (h : Heap α Unit) : RepDead h [] [] := ⟨[], rfl, by simp, rfl⟩
+
+
+/-- the whole loop, from the start of the list -/
+theorem compact_loop0 {σ ρ φ : Type} (proj : σ → IndexedSet.St α) (frame : σ → φ) (bind : Int → Val α Unit → σ → σ)
+    (body : Stmt σ ρ) (keep : Val α Unit → Bool) (hk1 : keep .sentinel = false) (hk2 : ∀ x, keep (.key x) = true)
+    (hbody : ∀ (t : σ) (i : Int) (x : α), 0 ≤ i → i < (proj t).item_list.length →
+      ∃ t', body (bind i (.key x) t) = (.next, t') ∧
+        proj t' = ⟨(proj t).heap, PyRt.Dict.set (proj t).item_index_map x i, (proj t).item_list.set i.toNat (.key x),
+                   (proj t).dead_indices, (proj t).compactions, (proj t).c_max_size⟩ ∧ frame t' = frame t)
+    (items : List (Option α)) (m : IMap α) (fuel : Nat) (t : σ) (hf : items.length < fuel)
+    (hl : (proj t).item_list = items.map ofItem) (hi : (proj t).item_index_map = castIdx m) :
+    ∃ t', forLazy (fun s => (proj s).item_list) keep bind body fuel 0 0 t = (.next, t') ∧
+      proj t' = ⟨(proj t).heap, castIdx (assignIdx m (live items) 0),
+                 (live items).map Val.key ++ (items.map ofItem).drop (live items).length,
+                 (proj t).dead_indices, (proj t).compactions, (proj t).c_max_size⟩ ∧ frame t' = frame t := by
+  have := compact_loop proj frame bind body keep hk1 hk2 hbody items [] [] m fuel t hf (by simpa using hl) hi
+  simpa using this
+
+end RepSec
+
 end C11
